@@ -215,10 +215,32 @@ package db
 //@   frame nothing
 //@   ensures result == (len(d) == 0)
 
+// the in-memory batch: a Set record keeps its (possibly empty) value non-nil, a Delete record has a nil
+// value, and Write applies the records in order - nil value = delete, anything else = set
+//@ pure func (*GoMemDB).Set
+//@ pure func (*GoMemDB).Delete
+//@ func (*memBatch).Set [C06]
+//@   opt safety=assumed overflow=assumed
+//@   frame allocates, memBatch.writes, memBatch.size, memBatch.len, mem:github.com/33cn/chain33/common/db.kv
+//@   ensures len(b.writes) == old(len(b.writes)) + 1
+//@   ensures !isnil(b.writes[old(len(b.writes))].v) && bytes(b.writes[old(len(b.writes))].v) == old(bytes(value)) && bytes(b.writes[old(len(b.writes))].k) == old(bytes(key))
+//@   ensures forall j :: 0 <= j && j < old(len(b.writes)) ==> b.writes[j] == old(b.writes[j])
+//@ func (*memBatch).Delete [C06]
+//@   opt safety=assumed overflow=assumed
+//@   frame allocates, memBatch.writes, memBatch.size, memBatch.len, mem:github.com/33cn/chain33/common/db.kv
+//@   ensures len(b.writes) == old(len(b.writes)) + 1
+//@   ensures isnil(b.writes[old(len(b.writes))].v) && bytes(b.writes[old(len(b.writes))].k) == old(bytes(key))
+//@   ensures forall j :: 0 <= j && j < old(len(b.writes)) ==> b.writes[j] == old(b.writes[j])
+//@ func (*memBatch).Write [C06]
+//@   opt safety=assumed overflow=assumed
+//@   assert@call GoMemDB).Delete: isnil(b.writes[rangeindex].v) && arg1 == b.writes[rangeindex].k
+//@   assert@call GoMemDB).Set: !isnil(b.writes[rangeindex].v) && arg1 == b.writes[rangeindex].k && arg2 == b.writes[rangeindex].v
+//@   loop 0 invariant rangeindex >= -1 && b.writes == old(b.writes)
+
 //@ func cloneByte [C07]
 //@   opt overflow=assumed
 //@   frame allocates
-//@   ensures bytes(result) == old(bytes(v)) && len(result) == len(v)
+//@   ensures bytes(result) == old(bytes(v)) && len(result) == len(v) && !isnil(result)
 
 // collect appends exactly one item made from the entry under the iterator: the key, the encoded pair or
 // the value, as the direction flags say; what was collected before stays
